@@ -130,7 +130,13 @@ Definition step_kp (sx sy : astep) : kp -> kp := map_kp (ap (kmap sx)) (ap (kmap
    Result: (x-axis step, y-axis step, all sizes exact?) *)
 Definition exactb (n new : Z) (k : Q) : bool := Qeq_bool (zq new) (zq n * k).
 
-Record pipe := mkPipe { px : astep; py : astep; pexact : bool; pfactor : Q }.
+(* pnx, pny : the ORIGINAL image sides (W, H); pdx, pdy : the SIZE DEFECT of each axis in output
+   pixels = (actual side of the resized content, target * new / padded) - (original side * nominal
+   factor eff*scale): what the rounding of the two sizes (nearest for the size matcher, floor for the
+   resizer) adds or removes; 0 when every size is exact *)
+Record pipe := mkPipe { px : astep; py : astep; pexact : bool; pfactor : Q;
+                        pnx : Z; pny : Z; pdx : Q; pdy : Q }.
+Definition size_defect (n target out new : Z) (k : Q) : Q := zq target * zq new / zq out - zq n * k.
 
 Definition pipe_pre (H W : Z) (mh mw : option Z) (s : Q) : option pipe :=
   match sizematcher H W mh mw with
@@ -144,7 +150,9 @@ Definition pipe_pre (H W : Z) (mh mw : option Z) (s : Q) : option pipe :=
         (then_ (sm_axis H (sm_th r) (sm_oh r) (sm_eff r)) (resize_axis (sm_oh r) s))
         (exactb W (sm_tw r) (sm_eff r) && exactb H (sm_th r) (sm_eff r) &&
          exactb (sm_ow r) nw s && exactb (sm_oh r) nh s)
-        (sm_eff r * s))
+        (sm_eff r * s) W H
+        (size_defect W (sm_tw r) (sm_ow r) nw (sm_eff r * s))
+        (size_defect H (sm_th r) (sm_oh r) nh (sm_eff r * s)))
   end.
 
 Definition pipe_full (H W : Z) (mh mw : option Z) (s : Q) (stride : Z) : option pipe :=
@@ -152,7 +160,7 @@ Definition pipe_full (H W : Z) (mh mw : option Z) (s : Q) (stride : Z) : option 
   | None => None
   | Some p => Some (mkPipe (then_ (px p) (pad_axis (osize (px p)) stride))
                            (then_ (py p) (pad_axis (osize (py p)) stride))
-                           (pexact p) (pfactor p))
+                           (pexact p) (pfactor p) (pnx p) (pny p) (pdx p) (pdy p))
   end.
 
 (* CenteredInstanceDataset without augmentation; (cx,cy) = centroid in ORIGINAL
@@ -169,17 +177,28 @@ Definition pipe_centered (H W : Z) (mh mw : option Z) (s : Q) (stride : Z)
   match pipe_pre H W mh mw s with
   | None => None
   | Some p => Some (mkPipe (recrop (px p) cx cw stride) (recrop (py p) cy ch stride)
-                           (pexact p) (pfactor p))
+                           (pexact p) (pfactor p) (pnx p) (pny p) (pdx p) (pdy p))
   end.
 
-(* selectors of the known findings (see Props.v / notes):
-     F11  : the cumulative keypoint factor (eff_scale * scale) is >= 3
-     F11b : some output size was rounded AND the model error reaches one pixel
-            (only possible in the far-edge band, see Lemmas.v) *)
+(* selectors of the known findings (see Props.v / notes), stated in terms of SIZES and POSITION only
+   (no reference to the error of the modelled maps: that they bound the error is the theorem
+   c04_registration_partial_*, that they are exactly the failure set is c04_selector_F11b_exact):
+     F11  : the cumulative keypoint factor k = eff_scale * scale is >= 3
+     F11b : some output size was rounded, k < 3, and on one axis the keypoint lies in the BAND
+              d * t >= (3 - k)/2   or   d * t <= -(1 + k)/2
+            d = size defect of the axis (pdx / pdy), t = (x + 1/2)/n in [0,1] = relative position of the
+            keypoint along the original side.  The band is an interval of t that ends at the far edge
+            t = 1 and never contains the near edge t = 0 (c04_band_far_edge_interval); it is empty unless
+            |d| >= min (3-k, 1+k)/2. *)
+Definition relpos (n : Z) (x : Q) : Q := (x + (1 # 2)) / zq n.
+Definition band (d k t : Q) : bool :=
+  Qle_bool ((3 - k) * (1 # 2)) (d * t) || Qle_bool (d * t) (- ((1 + k) * (1 # 2))).
+(* closed form of the pipeline's registration error (theorem c04_pipe_*_error_formula) *)
+Definition perr (d k : Q) (n : Z) (x : Q) : Q := d * relpos n x + (k - 1) / 2.
 Definition selector_F11 (p : pipe) : bool := Qle_bool 3 (pfactor p).
 Definition selector_F11b (p : pipe) (x y : Q) : bool :=
   negb (pexact p) && negb (Qle_bool 3 (pfactor p)) &&
-  (Qle_bool 1 (Qabs (err (px p) x)) || Qle_bool 1 (Qabs (err (py p) y))).
+  (band (pdx p) (pfactor p) (relpos (pnx p) x) || band (pdy p) (pfactor p) (relpos (pny p) y)).
 
 (* ---------------------------------------------------------------- augmentation wrapper *)
 (* instances.reshape(n, -1, 2) -> kornia -> reshape back to inst_shape: list model *)
@@ -230,6 +249,69 @@ Definition aug_err (fixed_F04k : bool) (H W : Z) (m : mat) (x y : Q) : Q * Q :=
 Definition selector_F04k (H W : Z) (m : mat) (x y : Q) : bool :=
   let '(ex, ey) := aug_err false H W m x y in
   Qle_bool (9 # 10) (Qabs ex) || Qle_bool (9 # 10) (Qabs ey).
+
+(* kornia's warp_affine MECHANISM (what RandomAffine.apply_transform runs): the pixel matrix m is
+   normalised with the (n-1) convention (normalize_homography: N x = 2x/(n-1) - 1 per axis), inverted,
+   turned into a sampling grid by F.affine_grid(align_corners) and read by F.grid_sample(align_corners);
+   output pixel j has grid coordinate S j with  S j = 2j/(n-1) - 1 (align_corners=True, = N)  or
+   S j = (2j+1)/n - 1 (False).  The image content therefore moves by  S^-1 (N m N^-1) S.
+   align = true is what /repo calls (both apply_geometric_augmentation and KorniaAugmenter since the
+   fixes 6a3da1d / c812d23); align = false is kornia's default (the pinned tree: findings F04k / F04p).
+   warp_mech is what `run (CAugContent ...)` evaluates; c04_warp_mech_aligned / _default relate it to
+   m and to D m D^-1 (warp_content false).  Sides of 1 px are excluded (2/(n-1) is not defined). *)
+Definition norm_mat (H W : Z) : mat := ((2 / (zq W - 1), 0, - (1)), (0, 2 / (zq H - 1), - (1))).
+Definition norm_inv (H W : Z) : mat :=
+  (((zq W - 1) / 2, 0, (zq W - 1) / 2), (0, (zq H - 1) / 2, (zq H - 1) / 2)).
+Definition samp_mat (align : bool) (H W : Z) : mat :=
+  if align then norm_mat H W
+  else ((2 / zq W, 0, 1 / zq W - 1), (0, 2 / zq H, 1 / zq H - 1)).
+Definition samp_inv (align : bool) (H W : Z) : mat :=
+  if align then norm_inv H W
+  else ((zq W / 2, 0, (zq W - 1) / 2), (0, zq H / 2, (zq H - 1) / 2)).
+Definition warp_mech (align : bool) (H W : Z) (m : mat) : mat :=
+  mat_comp (samp_inv align H W)
+           (mat_comp (mat_comp (norm_mat H W) (mat_comp m (norm_inv H W))) (samp_mat align H W)).
+Definition aug_err_mech (align : bool) (H W : Z) (m : mat) (x y : Q) : Q * Q :=
+  let '(cx, cy) := mat_xy (warp_mech align H W m) x y in
+  let '(kx, ky) := mat_xy m x y in (cx - kx, cy - ky).
+
+(* ---------------------------------------------------------------- pipeline followed by geometric augmentation *)
+(* Dataset.__getitem__ with apply_aug: the geometric augmentation acts on the image the pipeline has
+   produced so far and on the keypoints the pipeline has produced so far:
+     BottomUp / SingleInstance / Centroid : size matcher -> resizer -> stride pad -> AUGMENTATION
+     CenteredInstance : size matcher -> resizer -> over-crop -> AUGMENTATION -> re-crop about the
+                        (un-augmented) centroid -> stride pad
+   m is the sampled matrix (in the pixel coordinates of the image it acts on); `align` as above.
+   Results are positions in the FINAL sample for a point (x, y) of the ORIGINAL frame. *)
+Definition lin_apply (m : mat) (ex ey : Q) : Q * Q :=
+  let '((a, b, _), (c, d, _)) := m in (a * ex + b * ey, c * ex + d * ey).
+Definition full_aug_content (align : bool) (p : pipe) (m : mat) (x y : Q) : Q * Q :=
+  mat_xy (warp_mech align (osize (py p)) (osize (px p)) m) (ap (cmap (px p)) x) (ap (cmap (py p)) y).
+Definition full_aug_kp (p : pipe) (m : mat) (x y : Q) : Q * Q :=
+  mat_xy m (ap (kmap (px p)) x) (ap (kmap (py p)) y).
+
+(* the two halves of `recrop`: up to the over-crop (where the augmentation acts), and from there on *)
+Definition over_stage (pre : astep) (c0 : Q) (crop : Z) : astep :=
+  then_ pre (crop_axis (ap (kmap pre) c0) (osize pre) (overcrop_size crop)).
+Definition recrop_stage (pre : astep) (c0 : Q) (crop stride : Z) : astep :=
+  let c2 := ap (kmap (over_stage pre c0 crop)) c0 in
+  then_ (crop_axis c2 (overcrop_size crop) crop) (pad_axis crop stride).
+Definition centered_aug_content (align : bool) (prex prey : astep) (cx cy : Q) (ch cw stride : Z)
+  (m : mat) (x y : Q) : Q * Q :=
+  let q := mat_xy (warp_mech align (overcrop_size ch) (overcrop_size cw) m)
+                  (ap (cmap (over_stage prex cx cw)) x) (ap (cmap (over_stage prey cy ch)) y) in
+  (ap (cmap (recrop_stage prex cx cw stride)) (fst q), ap (cmap (recrop_stage prey cy ch stride)) (snd q)).
+Definition centered_aug_kp (prex prey : astep) (cx cy : Q) (ch cw stride : Z) (m : mat) (x y : Q) : Q * Q :=
+  let q := mat_xy m (ap (kmap (over_stage prex cx cw)) x) (ap (kmap (over_stage prey cy ch)) y) in
+  (ap (kmap (recrop_stage prex cx cw stride)) (fst q), ap (kmap (recrop_stage prey cy ch stride)) (snd q)).
+
+(* finding F11c: the pipeline's offset (under one pixel: outside F11 and F11b) is multiplied by the
+   linear part of the augmentation matrix and reaches one pixel on some axis.  Stated through the
+   closed form `perr` of the pipeline error (sizes, factor, position) and the matrix entries only. *)
+Definition selector_F11c (p : pipe) (m : mat) (x y : Q) : bool :=
+  negb (selector_F11 p) && negb (selector_F11b p x y) &&
+  (let '(ex, ey) := lin_apply m (perr (pdx p) (pfactor p) (pnx p) x) (perr (pdy p) (pfactor p) (pny p) y) in
+   Qle_bool 1 (Qabs ex) || Qle_bool 1 (Qabs ey)).
 
 (* ---------------------------------------------------------------- find_instance_crop_size *)
 Definition Qmax (a b : Q) : Q := if Qle_bool a b then b else a.
@@ -390,7 +472,10 @@ Inductive case :=
 | CSizeMatchDP (mh mw : option Z) (imgs : list (Z * Z))
 | CCropper (H W h w : Z) (num : nat) (items : list ((Q * Q) * list kp))
 | CAugStack (entries : list (aug_op * bool)) (n_nodes : nat) (insts : list (list kp))
-| CFrameCache (centered : bool) (labels : list lframe).
+| CFrameCache (centered : bool) (labels : list lframe)
+| CFullAug (align : bool) (H W : Z) (mh mw : option Z) (s : Q) (stride : Z) (m : mat) (pts : list kp)
+| CCenteredAug (align : bool) (H W : Z) (mh mw : option Z) (s : Q) (stride ch cw : Z) (cx cy : Q) (m : mat)
+               (pts : list kp).
 
 (* result: integers (sizes), rationals (scales / map coefficients), keypoints *)
 Definition result := option (list Z * list Q * list (list kp)).
@@ -402,10 +487,21 @@ Definition pipe_result (p : pipe) (pts : list kp) : result :=
   let sel := existsb (fun q => match q with
                                | Some (x, y) => selector_F11b p x y
                                | None => false end) pts in
-  Some ([osize (px p); osize (py p); bq (pexact p); bq (selector_F11 p); bq sel],
+  Some ([osize (px p); osize (py p); bq (pexact p); bq (selector_F11 p); bq sel]
+        ++ map (fun q => match q with Some (x, y) => bq (selector_F11b p x y) | None => 0%Z end) pts,
         affq (cmap (px p)) ++ affq (cmap (py p)) ++ affq (kmap (px p)) ++ affq (kmap (py p))
-        ++ [pfactor p],
+        ++ [pfactor p; pdx p; pdy p],
         [map (step_kp (px p) (py p)) pts]).
+
+(* pipeline + augmentation: per point the bits (F11b, F11c), then content and keypoint positions *)
+Definition aug_result (p : pipe) (m : mat) (content kpos : Q -> Q -> Q * Q) (pts : list kp) : result :=
+  Some (bq (selector_F11 p) ::
+        flat_map (fun q => match q with
+                           | Some (x, y) => [bq (selector_F11b p x y); bq (selector_F11c p m x y)]
+                           | None => [0%Z; 0%Z] end) pts,
+        [pfactor p],
+        [map (fun q => match q with Some (x, y) => Some (content x y) | None => None end) pts;
+         map (fun q => match q with Some (x, y) => Some (kpos x y) | None => None end) pts]).
 
 Definition run (c : case) : result :=
   match c with
@@ -455,7 +551,7 @@ Definition run (c : case) : result :=
       Some (map (fun p => match p with
                           | Some (x, y) => bq (selector_F04k H W m x y)
                           | None => 0%Z end) pts, [],
-            [map (apply_mat (warp_content fx H W m)) pts; map (apply_mat m) pts])
+            [map (apply_mat (warp_mech fx H W m)) pts; map (apply_mat m) pts])
   | CSizeMatchDP mh mw imgs =>
       let '(l, e) := smdp_run (mh, mw) imgs in
       Some (bq e :: flat_map (fun o => [fst o; snd o]) l, [], [])
@@ -472,4 +568,16 @@ Definition run (c : case) : result :=
                                let f := nth img labels (0, 0, 0)%nat in
                                [Z.of_nat p; Z.of_nat j; Z.of_nat (lf_video f); Z.of_nat (lf_frame f)])
                      (combine idx imgs), [], [])
+  | CFullAug align H W mh mw s stride m pts =>
+      match pipe_full H W mh mw s stride with
+      | None => None
+      | Some p => aug_result p m (full_aug_content align p m) (full_aug_kp p m) pts
+      end
+  | CCenteredAug align H W mh mw s stride ch cw cx cy m pts =>
+      match pipe_pre H W mh mw s, pipe_centered H W mh mw s stride ch cw cx cy with
+      | Some q, Some p =>
+          aug_result p m (centered_aug_content align (px q) (py q) cx cy ch cw stride m)
+                     (centered_aug_kp (px q) (py q) cx cy ch cw stride m) pts
+      | _, _ => None
+      end
   end.
